@@ -339,7 +339,13 @@ func c51Exec(ctx *vk.Ctx, c c51Case) error {
 		}
 		if failed {
 			if got != s {
-				if o.Op == "F" && o.A == o.C && ctx.Known("transferfrom-to-owner-spends-allowance") {
+				// exactly this divergence: TransferFrom(owner, spender, to == owner, amt > 0) with
+				// enough funds and allowance is rejected as a self-transfer after the allowance
+				// was already spent; nothing but that one allowance entry may differ.
+				exp := s
+				exp.allow[o.A][o.B] -= o.Amt
+				if o.Op == "F" && o.A == o.C && o.Amt > 0 && cl != c51MustFail && got == exp &&
+					ctx.Known("transferfrom-to-owner-spends-allowance") {
 					s = got
 					continue
 				}
